@@ -5,7 +5,7 @@
 // Mirrors the visitor's recursion and the ORDER of its writes:
 //   * def / async def:  if it carries a fixture decorator its definition is recorded FIRST (record_fixture_definition),
 //     then its body is scanned with declared = {self, request, its own name, its parameters}; if its name starts
-//     with `test_` its body is scanned (again, when it is both) with declared = {self, request, its parameters}.
+//     with `test` its body is scanned (again, when it is both) with declared = {self, request, its parameters}.
 //     Both scans read the definitions map AFTER the function's own definition (if any) was recorded.
 //   * class:            the members in order; the scan of a later member reads the definitions the earlier members
 //     recorded (body_defs of the prefix pushed onto the map the class started from)
@@ -25,7 +25,7 @@ pub open spec fn fix_scan(v: FnV, file: PV, src: Seq<char>, li: Seq<usize>, defs
         scan_fn(v.body, file, li, declared_fixture(v.name, v.args), v.name, vline(li, r_start(v.range)), push_defs(defs0, func_defs(v, file, src, li)), imps)
     } else { Seq::<UndV>::empty() }
 }
-/// the TEST scan of one function (empty unless its name starts with `test_`): declared = {self, request, its parameters};
+/// the TEST scan of one function (empty unless its name starts with `test`): declared = {self, request, its parameters};
 /// the same definitions map (a fixture-decorated `test_x` is scanned twice, the second time with its own definition
 /// already recorded)
 #[verifier::opaque]
